@@ -137,6 +137,14 @@ func c12Streams() []c12Stream {
 	add("big-4000", cat(big(4000), hb), big(4000), hb)
 	add("big-4096-edge", cat(hb, big(4096-len(hb)-80), tr), hb, big(4096-len(hb)-80), tr)
 	add("big-9000", cat(hb, big(9000), tr), hb, big(9000), tr)
+	// a message larger than the buffer with more than a buffer's worth of messages behind it
+	{
+		parts := [][]byte{hb, big(9000)}
+		for i := 0; i < 90; i++ {
+			parts = append(parts, tr)
+		}
+		add("big-9000-then-backlog", cat(parts...), parts...)
+	}
 	add("many-small", bytes.Repeat(hb, 70), func() [][]byte {
 		var o [][]byte
 		for i := 0; i < 70; i++ {
